@@ -8,6 +8,7 @@ import DimModel.Gen.TableC08
 import DimModel.Proofs.C08
 import DimModel.Proofs.C08Pct
 import DimModel.Proofs.C08Red
+import DimModel.Proofs.C08Red2
 namespace DimModel
 open Lib
 
@@ -96,6 +97,25 @@ theorem getFunc_table_policy :
 theorem getFunc_table_covers :
     ∀ f ∈ ["sum", "prod", "mean", "var", "std", "min", "max", "ptp", "all", "any", "median"],
       ∀ s ∈ [false, true], (Gen.getFuncTable.any fun r => r.1 == f && r.2.1 == s) = true := by decide
+
+/-- **the concrete model follows the implementation's selection, row by row**: for every row `(name, skipna, family)` of the
+table tabulated from `_get_func` (except `std`, which needs a square root) the concrete model `Lib/Reduce.lean` has a
+function (`selectRed` or `selectScan`) and that function mirrors exactly the family the implementation selects (`familyOf`).
+A change of `_get_func` that switches a family (a plain function where a NaN-skipping one is due, `np.median` instead of
+`_median_with_nan`, `np.nan<name>` instead of the masked switcher, ...) breaks this theorem when the table is regenerated. -/
+theorem selectRed_covers_table :
+    ∀ r ∈ Gen.getFuncTable, r.1 ≠ "std" → hasModel r.1 r.2.1 = true ∧ familyOf r.1 r.2.1 = some r.2.2 := by decide
+
+/-- ... and conversely every function of the concrete model is a row of the tabulated table (no model function without a
+selection of the implementation behind it), with its family -/
+theorem selectRed_within_table :
+    ∀ name ∈ ["sum", "prod", "mean", "var", "min", "max", "ptp", "all", "any", "median", "argmin", "argmax", "cumsum", "cumprod"],
+      ∀ s ∈ [false, true], ∃ fam, familyOf name s = some fam ∧ (name, s, fam) ∈ Gen.getFuncTable := by decide
+
+/-- `familyOf` names a family exactly where the model has a function (all names, listed or not) -/
+theorem familyOf_isSome_iff_hasModel (name : String) (s : Bool) : (familyOf name s).isSome = hasModel name s := by
+  unfold familyOf hasModel selectRed selectScan
+  split <;> simp_all
 
 /-! ## end-to-end statements about `reduceAxis` (scalar results, names vs storage order, positions) -/
 
@@ -803,27 +823,32 @@ theorem cumsum_last_eq_sum (s : Bool) (l : List XVal) :
   cases s <;> simp [selectScan, selectRed]
 
 /-- **argmin / argmax return the FIRST position of the extremum** `m = np.min(fibre)` (NaN counts as the extremum, as in
-NumPy: then it is the first NaN position): the position is inside the fibre, holds `m`, and no earlier cell does -/
+NumPy: then it is the first NaN position): the position is inside the fibre, holds `m`, no earlier cell does, and - on a
+NaN-free fibre - `m` really is the extremum: every cell is `>= m` (argmax: `<= m`) -/
 theorem argmin_spec (l : List XVal) (hne : l ≠ []) :
-    ∃ m p, xmin l = .ok m ∧ xargmin l = .ok (XVal.ofNat p) ∧ ∃ hp : p < l.length, l[p] = m ∧ ∀ i (hi : i < p), l[i] ≠ m := by
+    ∃ m p, xmin l = .ok m ∧ xargmin l = .ok (XVal.ofNat p) ∧ ∃ hp : p < l.length, l[p] = m ∧ (∀ i (hi : i < p), l[i] ≠ m) ∧
+      (XVal.nan ∉ l → ∀ i (hi : i < l.length), XVal.le m l[i] = true) := by
   cases hm : xmin l with
   | error e => cases l <;> simp_all [xmin]
   | ok m =>
     have hmem := xmin_mem hm
     have hp := List.idxOf_lt_length_of_mem hmem
-    refine ⟨m, l.idxOf m, rfl, by simp [xargmin, hm, bind, Except.bind, pure, Except.pure], hp, List.getElem_idxOf hp, ?_⟩
+    refine ⟨m, l.idxOf m, rfl, by simp [xargmin, hm, bind, Except.bind, pure, Except.pure], hp, List.getElem_idxOf hp, ?_,
+      fun hn i hi => (xmin_le hm hn).2 _ (List.getElem_mem hi)⟩
     intro i hi h
     have := List.not_of_lt_findIdx (p := (· == m)) (xs := l) (i := i) (by simpa [List.idxOf] using hi)
     simp [h] at this
 
 theorem argmax_spec (l : List XVal) (hne : l ≠ []) :
-    ∃ m p, xmax l = .ok m ∧ xargmax l = .ok (XVal.ofNat p) ∧ ∃ hp : p < l.length, l[p] = m ∧ ∀ i (hi : i < p), l[i] ≠ m := by
+    ∃ m p, xmax l = .ok m ∧ xargmax l = .ok (XVal.ofNat p) ∧ ∃ hp : p < l.length, l[p] = m ∧ (∀ i (hi : i < p), l[i] ≠ m) ∧
+      (XVal.nan ∉ l → ∀ i (hi : i < l.length), XVal.le l[i] m = true) := by
   cases hm : xmax l with
   | error e => cases l <;> simp_all [xmax]
   | ok m =>
     have hmem := xmax_mem hm
     have hp := List.idxOf_lt_length_of_mem hmem
-    refine ⟨m, l.idxOf m, rfl, by simp [xargmax, hm, bind, Except.bind, pure, Except.pure], hp, List.getElem_idxOf hp, ?_⟩
+    refine ⟨m, l.idxOf m, rfl, by simp [xargmax, hm, bind, Except.bind, pure, Except.pure], hp, List.getElem_idxOf hp, ?_,
+      fun hn i hi => (xmax_ge hm hn).2 _ (List.getElem_mem hi)⟩
     intro i hi h
     have := List.not_of_lt_findIdx (p := (· == m)) (xs := l) (i := i) (by simpa [List.idxOf] using hi)
     simp [h] at this
@@ -861,6 +886,109 @@ example : (match reduceX xnanmax
       { axes := [{ name := "x", labels := [.num 0, .num 1], kind := .i }, { name := "y", labels := [.num 0, .num 1], kind := .i }],
         vals := NDArr.ofFlat [2, 2] [.fin 1, .nan, .pinf, .ninf] } (.one (.name "y")) with
     | .ok (.inr r) => r.vals.toList | _ => []) = [.fin 1, .pinf] := by
+  decide +kernel
+
+/-- **order independence** (exact arithmetic), every fibre, NaN and infinite cells included: min, max, prod (0 * inf = NaN
+whatever the order), mean and var do not depend on the order of the cells -/
+theorem min_perm {l₁ l₂ : List XVal} (p : l₁.Perm l₂) : xmin l₁ = xmin l₂ := xmin_perm' p
+theorem max_perm {l₁ l₂ : List XVal} (p : l₁.Perm l₂) : xmax l₁ = xmax l₂ := xmax_perm' p
+theorem prod_perm {l₁ l₂ : List XVal} (p : l₁.Perm l₂) : xprod l₁ = xprod l₂ := xprod_perm' p
+theorem mean_perm {l₁ l₂ : List XVal} (p : l₁.Perm l₂) : xmean l₁ = xmean l₂ := xmean_perm' p
+theorem var_perm {l₁ l₂ : List XVal} (p : l₁.Perm l₂) : xvar l₁ = xvar l₂ := xvar_perm' p
+
+/-- **argmin(skipna=True)**: when the minimum `m` of the non-NaN cells is below +inf (needed:
+`nanargmin_inf_counterexample`), `np.nanargmin` returns the FIRST position of `m`: it is inside the fibre, holds `m`
+(not a NaN), no earlier cell holds `m`, and every non-NaN cell is `>= m` -/
+theorem nanargmin_spec (l : List XVal) (m : XVal) (hm : xmin (dropNan l) = .ok m) (hlt : m ≠ XVal.pinf) :
+    ∃ p, xnanargmin l = .ok (XVal.ofNat p) ∧ ∃ hp : p < l.length, l[p] = m ∧ m ≠ XVal.nan ∧ (∀ i (hi : i < p), l[i] ≠ m) ∧
+      ∀ i (hi : i < l.length), l[i] ≠ XVal.nan → XVal.le m l[i] = true := by
+  obtain ⟨h1, hmem, hnn, hle⟩ := xnanargmin_spec' hm hlt
+  have hp := List.idxOf_lt_length_of_mem hmem
+  refine ⟨l.idxOf m, h1, hp, List.getElem_idxOf hp, hnn, ?_, fun i hi h => hle _ (List.getElem_mem hi) h⟩
+  intro i hi h
+  have := List.not_of_lt_findIdx (p := (· == m)) (xs := l) (i := i) (by simpa [List.idxOf] using hi)
+  simp [h] at this
+
+/-- **argmax(skipna=True)**: the same with the maximum of the non-NaN cells, above -inf -/
+theorem nanargmax_spec (l : List XVal) (m : XVal) (hm : xmax (dropNan l) = .ok m) (hlt : m ≠ XVal.ninf) :
+    ∃ p, xnanargmax l = .ok (XVal.ofNat p) ∧ ∃ hp : p < l.length, l[p] = m ∧ m ≠ XVal.nan ∧ (∀ i (hi : i < p), l[i] ≠ m) ∧
+      ∀ i (hi : i < l.length), l[i] ≠ XVal.nan → XVal.le l[i] m = true := by
+  obtain ⟨h1, hmem, hnn, hle⟩ := xnanargmax_spec' hm hlt
+  have hp := List.idxOf_lt_length_of_mem hmem
+  refine ⟨l.idxOf m, h1, hp, List.getElem_idxOf hp, hnn, ?_, fun i hi h => hle _ (List.getElem_mem hi) h⟩
+  intro i hi h
+  have := List.not_of_lt_findIdx (p := (· == m)) (xs := l) (i := i) (by simpa [List.idxOf] using hi)
+  simp [h] at this
+
+/-- the mirror case of `nanargmin_inf_counterexample` for argmax -/
+theorem nanargmax_inf_counterexample : xnanargmax [.nan, .ninf] = .ok (XVal.ofNat 0) := by
+  simp [xnanargmax, dropNan, XVal.isNan, xargmax, xmax, XVal.max, XVal.le, bind, Except.bind, pure, Except.pure, List.idxOf, List.findIdx, List.findIdx.go]
+
+/-- the hypotheses of `nanargmin_spec` / `nanargmax_spec` are satisfiable: [NaN, 3, -inf, 1, -inf] and [NaN, 3, +inf, 3] -/
+example : totalize xmin (dropNan [.nan, .fin 3, .ninf, .fin 1, .ninf]) = .ninf ∧ XVal.ninf ≠ XVal.pinf ∧
+    totalize xnanargmin [.nan, .fin 3, .ninf, .fin 1, .ninf] = XVal.ofNat 2 ∧
+    totalize xmax (dropNan [.nan, .fin 3, .pinf, .fin 3]) = .pinf ∧ totalize xnanargmax [.nan, .fin 3, .pinf, .fin 3] = XVal.ofNat 2 := by
+  decide +kernel
+
+/-- **cumulative functions, inside a fibre**: NumPy's running accumulation (`xcumsum`, `xcumprod`; `xnancumsum`,
+`xnancumprod` replace NaN by 0 / 1 first) has one cell per cell of the fibre, and cell `k` is the sum / product of the first
+`k + 1` cells - with skipna: of the first `k + 1` cells without their NaNs; and that is the function `selectScan` hands to
+`cumAxis` -/
+theorem cumsum_prefix_spec (l : List XVal) :
+    (xcumsum l).length = l.length ∧ (xcumprod l).length = l.length ∧
+    (xnancumsum l).length = l.length ∧ (xnancumprod l).length = l.length ∧
+    ∀ k, k < l.length →
+      (xcumsum l)[k]? = some (xsum (l.take (k + 1))) ∧ (xcumprod l)[k]? = some (xprod (l.take (k + 1))) ∧
+      (xnancumsum l)[k]? = some (xsum (dropNan (l.take (k + 1)))) ∧
+      (xnancumprod l)[k]? = some (xprod (dropNan (l.take (k + 1)))) ∧
+      (∀ name s cum scan, selectCum name s = some cum → selectScan name s = some scan →
+        (cum l)[k]? = some (scan (l.take (k + 1)))) := by
+  refine ⟨cumFrom_length _ _ _, cumFrom_length _ _ _, by simp [xnancumsum, xcumsum, cumFrom_length],
+    by simp [xnancumprod, xcumprod, cumFrom_length], ?_⟩
+  intro k hk
+  have h1 : (xcumsum l)[k]? = some (xsum (l.take (k + 1))) := cumFrom_getElem? _ l _ k hk
+  have h2 : (xcumprod l)[k]? = some (xprod (l.take (k + 1))) := cumFrom_getElem? _ l _ k hk
+  have h3 : (xnancumsum l)[k]? = some (xnansum (l.take (k + 1))) := by
+    unfold xnancumsum xcumsum
+    rw [cumFrom_getElem? _ _ _ k (by simpa using hk), map_take_replace]; rfl
+  have h4 : (xnancumprod l)[k]? = some (xnanprod (l.take (k + 1))) := by
+    unfold xnancumprod xcumprod
+    rw [cumFrom_getElem? _ _ _ k (by simpa using hk), map_take_replace]; rfl
+  refine ⟨h1, h2, by rw [h3, xnansum_eq], by rw [h4, xnanprod_eq], ?_⟩
+  intro name s cum scan hc hs
+  unfold selectCum at hc
+  unfold selectScan at hs
+  split at hc <;> simp_all
+  all_goals (subst hc; subst hs; assumption)
+
+/-- **END TO END, cumulative**: `a.<cumsum|cumprod>(axis=name, skipna=s)` on concrete data keeps all axes (labels, metadata,
+order), the array's metadata and the shape, and along every fibre of the named dimension it IS NumPy's cumulative function
+`cum` of that fibre (`selectCum name s = some cum`): cell `j` is cell `j[pos]` of `cum (fibre through j)`, i.e. the sum /
+product of the cells up to and including `j[pos]` (without their NaNs for skipna) -/
+theorem cumX_name_spec (fn : String) (s : Bool) (cum : List XVal → List XVal) (scan : List XVal → XVal)
+    (hc : selectCum fn s = some cum) (hs : selectScan fn s = some scan)
+    (a : DimArray XVal) (pos : Nat) (hpos : pos < a.dims.length) (hn : a.dims.Nodup) :
+    ∃ r, cumAxis scan a (.one (.name a.dims[pos])) = .ok (.inr r) ∧
+      r.axes = a.axes ∧ r.attrs = a.attrs ∧ r.vals.shape = a.vals.shape ∧
+      ∀ j, j.getD pos 0 < a.vals.shape.getD pos 0 →
+        (cum (fibre a pos (j.eraseIdx pos)))[j.getD pos 0]? = some (r.vals.get j) ∧
+        r.vals.get j = scan ((fibre a pos (j.eraseIdx pos)).take (j.getD pos 0 + 1)) := by
+  have hd := dealWithAxis_name a pos hpos hn
+  refine ⟨{ axes := a.axes,
+            vals := { shape := a.vals.shape,
+                      get := fun j => scan ((fibre a pos (j.eraseIdx pos)).take (j.getD pos 0 + 1)) },
+            vkind := a.vkind, attrs := a.attrs }, by simp only [cumAxis, hd, bind, Except.bind, pure, Except.pure], rfl, rfl, rfl, ?_⟩
+  intro j hj
+  refine ⟨?_, rfl⟩
+  have hlen : j.getD pos 0 < (fibre a pos (j.eraseIdx pos)).length := by rw [fibre_length]; exact hj
+  exact (cumsum_prefix_spec (fibre a pos (j.eraseIdx pos))).2.2.2.2 _ hlen |>.2.2.2.2 fn s cum scan hc hs
+
+/-- the hypotheses of `cumX_name_spec` on a non-trivial input: nancumsum along "y" of [[1, NaN, 2], [+inf, -inf, 1]] -/
+example : (match cumAxis xnansum
+      { axes := [{ name := "x", labels := [.num 0, .num 1], kind := .i }, { name := "y", labels := [.num 0, .num 1, .num 2], kind := .i }],
+        vals := NDArr.ofFlat [2, 3] [.fin 1, .nan, .fin 2, .pinf, .ninf, .fin 1] } (.one (.name "y")) with
+    | .ok (.inr r) => r.vals.toList | _ => []) = [.fin 1, .fin 1, .fin 3, .pinf, .nan, .nan] ∧
+    xnancumsum [.pinf, .ninf, .fin 1] = [.pinf, .nan, .nan] ∧ xnancumsum [.fin 1, .nan, .fin 2] = [.fin 1, .fin 1, .fin 3] := by
   decide +kernel
 
 end DimModel
